@@ -167,6 +167,12 @@ def run(prog, chk):
                    m, '' if pop else ' (no such loop found; it is only written in ' + ', '.join(sorted({f.short for f, _ in writers[m]})) + ')'),
                key='table:' + m)
 
+    # ---- what a declaration is checked against does not depend on the declarations visited before it: every visitor of a declaration with
+    # a body sets the per-callable members itself (C16's R16.G, run here as R10.1: a "found a return" flag consumed where it is read,
+    # instead of reset on entry, lets a void function's `return;` satisfy the next non-void function — accepted or rejected by order)
+    from .C16 import _return_context_rule
+    _return_context_rule(prog, chk, [f_ for f_ in prog.functions if f_.body and f_.file.endswith('semantic_analyser.cpp')], rule='R10.1')
+
     # ---- R10.1b: every site that stores an entry of a record-valued table fills the same fields ---------------------------------
     # (the pre-declaration pass and the visit of the declaration itself both write m_functionInfo[name]: an entry that the
     # pre-declaration leaves half filled — e.g. without the return type — makes a call checked before the declaration was visited
